@@ -21,9 +21,10 @@ type Clause struct {
 func (c *Clause) TagStr() string { return strings.Join(c.Tags, ",") }
 
 type GhostDecl struct {
-	Name string
-	Sort string
-	Init *Clause
+	Name   string
+	Sort   string
+	GoType string // set when the ghost was declared with a Go type instead of an SMT sort
+	Init   *Clause
 }
 
 type Action struct {
@@ -44,6 +45,7 @@ type Hook struct {
 }
 
 type LoopContract struct {
+	Enter      []Action // ghost assignments executed on loop entry
 	Anchor     string
 	Invariants []*Clause
 	Decreases  *Clause
@@ -72,12 +74,15 @@ type FuncContract struct {
 	Line         int
 	Entry        bool // verified with concurrent callers in mind
 	Opts         map[string]string
-	Uses         []string // lemmas assumed at entry (each is proved separately)
-	PureNames    []string // spec functions naming the results of a pure stub
+	Uses         []string   // lemmas assumed at entry (each is proved separately)
+	PureNames    []string   // spec functions naming the results of a pure stub
+	FreshFuns    []*SpecFun // uninterpreted functions, fresh at every application of the contract
 }
 
 type Monitor struct {
-	Lock       string // Struct.field
+	Lock       string   // Struct.field
+	Allows     []string // external blocking calls accepted while the lock is held
+	Props      []string
 	Guards     []string
 	Invariants []*Clause
 	File       string
@@ -129,10 +134,11 @@ type Contracts struct {
 	Assumptions []string          // mechanical scan: trusted / axiom / assume lines
 	FunTypes    map[string]string // named func type -> spec function giving its (pure) result
 	RawSMT      []string          // raw declarations added to every verification context
+	GhostHeaps  map[string]string // global ghost state: name -> sort
 }
 
 func NewContracts() *Contracts {
-	return &Contracts{Funcs: map[string]*FuncContract{}, Monitors: map[string]*Monitor{}, Fields: map[string]*FieldMode{}, FieldModes: map[string][]*FieldMode{}, FunTypes: map[string]string{}}
+	return &Contracts{Funcs: map[string]*FuncContract{}, Monitors: map[string]*Monitor{}, Fields: map[string]*FieldMode{}, FieldModes: map[string][]*FieldMode{}, GhostHeaps: map[string]string{}, FunTypes: map[string]string{}}
 }
 
 var tagRe = regexp.MustCompile(`^\[([^\]]*)\]`)
@@ -253,6 +259,12 @@ func (cs *Contracts) ParseFile(path string) error {
 			cur.Blocks = strings.TrimSpace(rest)
 		case "modifies":
 			cur.Modifies = append(cur.Modifies, strings.Fields(rest)...)
+		case "freshfun":
+			sf, err := parseSpecFunHead(rest)
+			if err != nil {
+				return fail(err)
+			}
+			cur.FreshFuns = append(cur.FreshFuns, sf)
 		case "uses":
 			if cur != nil {
 				cur.Uses = append(cur.Uses, strings.Fields(rest)...)
@@ -313,6 +325,21 @@ func (cs *Contracts) ParseFile(path string) error {
 			} else {
 				return fail(fmt.Errorf("invariant outside loop/monitor"))
 			}
+		case "enter":
+			// enter set var = expr
+			if curLoop == nil {
+				return fail(fmt.Errorf("enter outside loop"))
+			}
+			r2 := strings.TrimSpace(strings.TrimPrefix(strings.TrimSpace(rest), "set"))
+			parts := strings.SplitN(r2, "=", 2)
+			if len(parts) != 2 {
+				return fail(fmt.Errorf("enter set var = expr"))
+			}
+			c, err := parseClause(parts[1], path, ln)
+			if err != nil {
+				return err
+			}
+			curLoop.Enter = append(curLoop.Enter, Action{Kind: "set", Var: strings.TrimSpace(parts[0]), C: c})
 		case "decreases":
 			c, err := parseClause(rest, path, ln)
 			if err != nil {
@@ -342,7 +369,7 @@ func (cs *Contracts) ParseFile(path string) error {
 			cur.Hooks = append(cur.Hooks, h)
 			curHook = h
 			curLoop = nil
-		case "assert", "assume", "set", "after":
+		case "assert", "assume", "set", "after", "nonblocking":
 			if curHook == nil {
 				return fail(fmt.Errorf("%s outside an 'on' hook", kw))
 			}
@@ -383,9 +410,20 @@ func (cs *Contracts) ParseFile(path string) error {
 				return fail(fmt.Errorf("monitor needs a lock"))
 			}
 			curMon = &Monitor{Lock: fs[0], File: path, Line: ln}
+			sec := "guards"
 			for _, g := range fs[1:] {
-				if g != "guards" {
+				switch g {
+				case "guards", "allows", "props":
+					sec = g
+					continue
+				}
+				switch sec {
+				case "guards":
 					curMon.Guards = append(curMon.Guards, g)
+				case "allows":
+					curMon.Allows = append(curMon.Allows, g)
+				case "props":
+					curMon.Props = append(curMon.Props, g)
 				}
 			}
 			cs.Monitors[fs[0]] = curMon
@@ -400,6 +438,12 @@ func (cs *Contracts) ParseFile(path string) error {
 				cs.Fields[fs[0]] = fm
 			}
 			cs.FieldModes[fs[0]] = append(cs.FieldModes[fs[0]], fm)
+		case "ghostheap":
+			sp := strings.IndexAny(rest, " \t")
+			if sp < 0 {
+				return fail(fmt.Errorf("ghostheap NAME SORT"))
+			}
+			cs.GhostHeaps[rest[:sp]] = strings.TrimSpace(rest[sp:])
 		case "smtdecl":
 			cs.RawSMT = append(cs.RawSMT, rest)
 			if fs := strings.Fields(rest); len(fs) >= 2 && fs[0] == "(declare-sort" {
